@@ -492,6 +492,26 @@ func (w *World) GenTx(t *rapid.T, r *Replica, only []types.TxType) (*types.Trans
 	if err != nil {
 		t.Fatalf("sign: %v", err)
 	}
+	// a signature no key can be recovered from (wrong length, recovery id out of range, zeros): nobody signed this
+	if rapid.IntRange(0, 39).Draw(t, "junkSignature") == 0 {
+		c := WireCopyTx(signed)
+		switch rapid.IntRange(0, 4).Draw(t, "junkSignatureKind") {
+		case 0:
+			c.Signature = c.Signature[:len(c.Signature)-1]
+		case 1:
+			c.Signature = append(c.Signature, 0)
+		case 2:
+			c.Signature[len(c.Signature)-1] = byte(rapid.IntRange(4, 255).Draw(t, "recoveryId"))
+		case 3:
+			c.Signature = make([]byte, 65)
+		default:
+			c.Signature = []byte{1}
+		}
+		if _, err := types.Sender(c); err != nil {
+			info.Hostile = "unrecoverable-signature"
+			return c, info
+		}
+	}
 	return signed, info
 }
 
